@@ -101,7 +101,9 @@ namespace AIToolbox::Bandit {
             return wrap.sampleAction();
         }
 
-        valueBuffer_ = (q_ / temperature_).array().exp();
+        // Subtract the maximum before exponentiating: the result is mathematically
+        // the same, but the exponentials can neither overflow nor all underflow.
+        valueBuffer_ = ((q_.array() - q_.maxCoeff()) / temperature_).exp();
 
         unsigned infinities = 0;
         for ( size_t a = 0; a < buffer_.size(); ++a )
@@ -127,7 +129,9 @@ namespace AIToolbox::Bandit {
             return wrap.getActionProbability(a);
         }
 
-        valueBuffer_ = (q_ / temperature_).array().exp();
+        // Subtract the maximum before exponentiating: the result is mathematically
+        // the same, but the exponentials can neither overflow nor all underflow.
+        valueBuffer_ = ((q_.array() - q_.maxCoeff()) / temperature_).exp();
 
         bool isAInfinite = false;
         unsigned infinities = 0;
@@ -152,7 +156,9 @@ namespace AIToolbox::Bandit {
             return wrap.getPolicy(p);
         }
 
-        p = (q_ / temperature_).array().exp();
+        // Subtract the maximum before exponentiating: the result is mathematically
+        // the same, but the exponentials can neither overflow nor all underflow.
+        p = ((q_.array() - q_.maxCoeff()) / temperature_).exp();
 
         unsigned infinities = 0;
         double sum = 0.0;
